@@ -1,7 +1,9 @@
 //! Instrumented in-memory device shared between the library and the harness.
 //! Every Read/Write/Seek/Flush call is one numbered operation; operation
 //! number `fault` fails with an I/O error and has no effect; successful
-//! writes are logged.  Optionally transfers are cut into short chunks.
+//! writes are logged.  Optionally transfers are cut into short chunks, and optionally the device
+//! has a fixed capacity: a write that straddles it transfers the bytes that fit, a write at or
+//! behind it returns Ok(0) (a full device, as `Cursor<&mut [u8]>` reports it).
 use std::cell::RefCell;
 use std::io::{Error, Read, Result, Seek, SeekFrom, Write};
 use std::rc::Rc;
@@ -16,6 +18,8 @@ pub struct DevState {
     /// chunk schedule for short transfers: sizes used cyclically (empty = full transfers)
     pub chunks: Vec<usize>,
     pub chunk_idx: usize,
+    /// fixed capacity in bytes (None = grows as needed)
+    pub capacity: Option<u64>,
     /// op index at which the fault fired, and the label current at that time
     pub fault_fired: Option<u64>,
     pub label: u64,
@@ -35,6 +39,10 @@ impl Dev {
     }
     pub fn with_chunks(self, chunks: Vec<usize>) -> Self {
         self.0.borrow_mut().chunks = chunks;
+        self
+    }
+    pub fn with_capacity(self, cap: Option<u64>) -> Self {
+        self.0.borrow_mut().capacity = cap;
         self
     }
     pub fn set_label(&self, l: u64) {
@@ -91,7 +99,14 @@ impl Write for Dev {
     fn write(&mut self, buf: &[u8]) -> Result<usize> {
         let mut s = self.0.borrow_mut();
         s.tick()?;
-        let n = s.next_chunk(buf.len());
+        let mut n = s.next_chunk(buf.len());
+        if let Some(cap) = s.capacity {
+            n = n.min(cap.saturating_sub(s.cur) as usize);
+            if n == 0 && !buf.is_empty() {
+                // the device is full: nothing is transferred, nothing is logged
+                return Ok(0);
+            }
+        }
         let start = s.cur as usize;
         if s.bytes.len() < start {
             s.bytes.resize(start, 0);
